@@ -327,19 +327,29 @@ def request_pool(rng):
     W = lambda ws: b"".join(struct.pack(">H", w) for w in ws)
     v = rng.randint(0, 65535)
     pool = [
-        (lambda u: rrm.ReadHoldingRegistersRequest(a, n, unit=u), struct.pack(">BHH", 3, a, n), bytes([3, 2 * n]) + W(regs)),
-        (lambda u: rrm.ReadInputRegistersRequest(a, n, unit=u), struct.pack(">BHH", 4, a, n), bytes([4, 2 * n]) + W(regs)),
-        (lambda u: brm.ReadCoilsRequest(a, nb, unit=u), struct.pack(">BHH", 1, a, nb), bytes([1, len(packed)]) + bytes(packed)),
-        (lambda u: brm.ReadDiscreteInputsRequest(a, nb, unit=u), struct.pack(">BHH", 2, a, nb), bytes([2, len(packed)]) + bytes(packed)),
-        (lambda u: bwm.WriteSingleCoilRequest(a, True, unit=u), struct.pack(">BHH", 5, a, 0xFF00), struct.pack(">BHH", 5, a, 0xFF00)),
-        (lambda u: rwm.WriteSingleRegisterRequest(a, v, unit=u), struct.pack(">BHH", 6, a, v), struct.pack(">BHH", 6, a, v)),
+        (lambda u: rrm.ReadHoldingRegistersRequest(a, n, unit=u), struct.pack(">BHH", 3, a, n), bytes([3, 2 * n]) + W(regs),
+         lambda c, u: c.read_holding_registers(a, n, unit=u)),
+        (lambda u: rrm.ReadInputRegistersRequest(a, n, unit=u), struct.pack(">BHH", 4, a, n), bytes([4, 2 * n]) + W(regs),
+         lambda c, u: c.read_input_registers(a, n, unit=u)),
+        (lambda u: brm.ReadCoilsRequest(a, nb, unit=u), struct.pack(">BHH", 1, a, nb), bytes([1, len(packed)]) + bytes(packed),
+         lambda c, u: c.read_coils(a, nb, unit=u)),
+        (lambda u: brm.ReadDiscreteInputsRequest(a, nb, unit=u), struct.pack(">BHH", 2, a, nb), bytes([2, len(packed)]) + bytes(packed),
+         lambda c, u: c.read_discrete_inputs(a, nb, unit=u)),
+        (lambda u: bwm.WriteSingleCoilRequest(a, True, unit=u), struct.pack(">BHH", 5, a, 0xFF00), struct.pack(">BHH", 5, a, 0xFF00),
+         lambda c, u: c.write_coil(a, True, unit=u)),
+        (lambda u: rwm.WriteSingleRegisterRequest(a, v, unit=u), struct.pack(">BHH", 6, a, v), struct.pack(">BHH", 6, a, v),
+         lambda c, u: c.write_register(a, v, unit=u)),
         (lambda u: bwm.WriteMultipleCoilsRequest(a, [bool(b) for b in bits], unit=u),
-         struct.pack(">BHHB", 15, a, nb, len(packed)) + bytes(packed), struct.pack(">BHH", 15, a, nb)),
-        (lambda u: rwm.WriteMultipleRegistersRequest(a, regs, unit=u), struct.pack(">BHHB", 16, a, n, 2 * n) + W(regs), struct.pack(">BHH", 16, a, n)),
-        (lambda u: rwm.MaskWriteRegisterRequest(a, v, 0x0F0F, unit=u), struct.pack(">BHHH", 22, a, v, 0x0F0F), struct.pack(">BHHH", 22, a, v, 0x0F0F)),
+         struct.pack(">BHHB", 15, a, nb, len(packed)) + bytes(packed), struct.pack(">BHH", 15, a, nb),
+         lambda c, u: c.write_coils(a, [bool(b) for b in bits], unit=u)),
+        (lambda u: rwm.WriteMultipleRegistersRequest(a, regs, unit=u), struct.pack(">BHHB", 16, a, n, 2 * n) + W(regs), struct.pack(">BHH", 16, a, n),
+         lambda c, u: c.write_registers(a, regs, unit=u)),
+        (lambda u: rwm.MaskWriteRegisterRequest(a, v, 0x0F0F, unit=u), struct.pack(">BHHH", 22, a, v, 0x0F0F), struct.pack(">BHHH", 22, a, v, 0x0F0F),
+         lambda c, u: c.mask_write_register(a, v, 0x0F0F, unit=u)),
         (lambda u: rrm.ReadWriteMultipleRegistersRequest(read_address=a, read_count=n, write_address=a + 1, write_registers=[v], unit=u),
-         struct.pack(">BHHHHB", 23, a, n, a + 1, 1, 2) + W([v]), bytes([23, 2 * n]) + W(regs)),
-        (lambda u: dg.ReturnQueryDataRequest(v, unit=u), struct.pack(">BHH", 8, 0, v), struct.pack(">BHH", 8, 0, v)),
+         struct.pack(">BHHHHB", 23, a, n, a + 1, 1, 2) + W([v]), bytes([23, 2 * n]) + W(regs),
+         lambda c, u: c.readwrite_registers(read_address=a, read_count=n, write_address=a + 1, write_registers=[v], unit=u)),
+        (lambda u: dg.ReturnQueryDataRequest(v, unit=u), struct.pack(">BHH", 8, 0, v), struct.pack(">BHH", 8, 0, v), None),
     ]
     if rng.random() < 0.12:
         # replies of the largest legal size: a 253-byte PDU is a 256-byte RTU frame, a 260-byte MBAP frame, a 513-character ASCII frame
@@ -351,8 +361,12 @@ def request_pool(rng):
             (lambda u: rrm.ReadHoldingRegistersRequest(a, 125, unit=u), struct.pack(">BHH", 3, a, 125), bytes([3, 250]) + W(big)),
             (lambda u: brm.ReadCoilsRequest(a, 2000, unit=u), struct.pack(">BHH", 1, a, 2000), bytes([1, 250]) + bytes(rng.randrange(256) for _ in range(250))),
         ]
-    mk, req, rsp = rng.choice(pool)
+    pick = rng.choice(pool)
+    mk, req, rsp = pick[:3]
+    via = pick[3] if len(pick) > 3 else None
     exc = bytes([req[0] | 0x80, rng.choice([1, 2, 3, 4, 6, 10, 11])])
+    if via is not None and rng.random() < 0.5:
+        mk = _ViaApi(mk, via)         # the same request through the documented client API (read_coils(), write_registers(), ...)
     return mk, req, rsp, exc
 
 
@@ -362,6 +376,16 @@ def other_reply(rng, fc):
     if f2 in (1, 3):
         return bytes([f2, 2, 0x12, 0x34])
     return struct.pack(">BHH", f2, 1, 2)
+
+
+class _ViaApi:
+    """a request issued through the client's own method (ModbusClientMixin) instead of execute(<request object>)"""
+
+    def __init__(self, mk, via):
+        self.mk, self.via = mk, via
+
+    def __call__(self, uid):
+        return self.mk(uid)
 
 
 class Transaction:
@@ -454,7 +478,7 @@ class Transaction:
 
             def call():
                 try:
-                    box["r"] = self.c.execute(req)
+                    box["r"] = mk.via(self.c, uid) if isinstance(mk, _ViaApi) else self.c.execute(req)
                 except BaseException as ex:       # noqa: BLE001 - handed to the caller's thread below
                     box["ex"] = ex
             import threading
